@@ -171,3 +171,54 @@ def run(ctx):
     from .c04 import redirect_spellings
     ctx.rule("R8", "any port is ignored, also on the cache hosts redirection inference resolves: REDIRECTION_DOMAINS_RE accepts a port of 1-5 digits (regex-language inclusion)")
     redirect_spellings(ctx, "R8")
+    invariance_table(ctx, "R9")
+
+
+INVARIANCE_BASES = [
+    "http://a.com/x?b=1", "http://b.a.co.uk/Path/To?Q=1#/route", "https://www.youtube.com/watch?v=abcdefghijk", "https://youtu.be/abcdefghijk", "https://www.facebook.com/some.page/",
+    "https://www.facebook.com/permalink.php?story_fbid=55&id=100", "https://twitter.com/User/status/1", "http://xn--caf-dma.fr/menu",
+]
+
+
+def invariance_table(ctx, rule):
+    ctx.rule(rule, "model table (what fingerprint_url ignores): for one url per site kind {ordinary, multi-label suffix with routing fragment, YouTube watch / youtu.be, Facebook page / permalink, Twitter status, punycode host} x platform_aware x strip_suffix, the fingerprint (interpreted) is unchanged by: an explicit port, an upper-cased host, an upper-cased whole url (platform_aware=False: the platforms' own routes are case-sensitive), a leading 'fr.' / 'fr-FR.' label when two labels remain, added gl / hl items, and -- with strip_suffix -- another public suffix; and it never carries a scheme, userinfo or port")
+    from urllib.parse import urlsplit
+    from . import tables as TB
+    repo = ctx.repo
+    fp = repo.mod("fingerprint_url")
+    site = fp.site(fp.func("fingerprint_url").node)
+
+    def variants(u, pa, ss):
+        sp = urlsplit(u)
+        host = sp.netloc
+        yield "port", u.replace("://" + host, "://" + host + ":8080", 1)
+        yield "userinfo+port", u.replace("://" + host, "://u:p@" + host + ":443", 1)
+        yield "host-case", u.replace("://" + host, "://" + host.upper(), 1)
+        if not pa:
+            yield "url-case", u.upper()
+        bare = host[4:] if host.startswith("www.") else host
+        yield "lang-label", u.replace("://" + host, "://fr." + bare, 1)
+        yield "lang-country-label", u.replace("://" + host, "://fr-FR." + bare, 1)
+        head, _, frag = u.partition("#")
+        yield "gl-hl", head + ("&" if "?" in head else "?") + "hl=fr&gl=US" + ("#" + frag if frag else "")
+        if ss and host.endswith(".com"):
+            yield "other-suffix", u.replace("://" + host, "://" + host[:-4] + ".co.uk", 1)
+
+    n = 0
+    try:
+        for pa in (False, True):
+            for ss in (False, True):
+                for u in INVARIANCE_BASES:
+                    ref = TB.call_s(repo, "fingerprint_url", "fingerprint_url", u, platform_aware=pa, strip_suffix=ss)
+                    n += 1
+                    shape = isinstance(ref, str) and "://" not in ref and "@" not in ref.split("/")[0] and not ref.split("/")[0].split("?")[0].rsplit(":", 1)[-1].isdigit()
+                    ctx.ob(rule, "shape/%s/pa=%d,ss=%d" % (u, pa, ss), shape, "fingerprint_url(%r, platform_aware=%s, strip_suffix=%s) gives %r, which carries a scheme, userinfo or port" % (u, pa, ss, ref), site, witness=u)
+                    for kind, v in variants(u, pa, ss):
+                        got = TB.call_s(repo, "fingerprint_url", "fingerprint_url", v, platform_aware=pa, strip_suffix=ss)
+                        n += 1
+                        ctx.ob(rule, "%s/%s/pa=%d,ss=%d" % (kind, u, pa, ss), got == ref,
+                               "fingerprint_url(%r) is %r but fingerprint_url(%r) is %r (platform_aware=%s, strip_suffix=%s): the two differ only by what a fingerprint ignores (%s)" % (u, ref, v, got, pa, ss, kind), site, witness=v,
+                               sample="%s: %r == %r -> %r" % (kind, u, v, ref) if kind == "port" and pa else None)
+    except Unknown as e:
+        ctx.undecided(rule, "fingerprint_url not interpretable: %s" % e)
+    ctx.require_instances(rule, n, 200, "(url, variation, options) cells")
